@@ -1,7 +1,7 @@
 (* C18 — CurlyRouter and RouterJSR311 agree wherever both are specified. *)
 From Model Require Import Str Sexp Http Template Table Curly DetectRoute Jsr311 Router.
 From Spec Require Import RouteSpec RankSpec.
-From Proofs Require Import RouterProofs.
+From Proofs Require Import RouterProofs JsrOutcomeProofs AgreeProofs.
 
 (* The full statement: on the common fragment every request has the same outcome under
    both routers. *)
@@ -47,3 +47,52 @@ Definition C18_shared_stage_statement : Prop :=
 Theorem C18_shared_stage : C18_shared_stage_statement.
 Proof. exact detect_route_with_path. Qed.
 Print Assumptions C18_shared_stage.
+
+(* The positive half.  Whenever both routers hand the request to the same service w (or to
+   none), w's templates read the same under both routers token by token and consist of
+   non-empty literals and plain variables (c18_service_ok; jsr_all_agree / jsr_names_agree:
+   the expression compiled by path_expression.go is that reading), the path is cut into the
+   same non-empty segments by both (c18_clean: leading slash, no empty segment, at most one
+   trailing slash — the complement is K-C18-2), and the routes eligible for the request are
+   strictly ordered by literal-over-variable (c18_chain — the complement is K-C18-1 plus
+   same-shape twins, which are compared on the implementation only): the two routers return
+   the same route of the same service with the same parameter map, or the same error with the
+   same Allow set.  All premises are booleans evaluated on every generated case. *)
+Definition C18_agree_statement : Prop :=
+  forall (O : oracles) (wss : list service) (req : request) (w : service) (fin : str),
+    detect_web_service O (tokenize (rq_path req)) wss = Some w ->
+    detect_dispatcher O (rq_path req) wss = Some (w, fin) ->
+    forallb (wf_route w) (s_routes w) = true ->
+    jsr_all_agree w = true -> forallb (jsr_names_agree w) (s_routes w) = true ->
+    c18_service_ok w = true -> c18_clean (rq_path req) = true -> c18_chain O w req = true ->
+    routed_equiv (route_request O {| t_router := Curly; t_services := wss |} req)
+                 (route_request O {| t_router := Jsr311; t_services := wss |} req).
+Theorem C18_agree : C18_agree_statement.
+Proof. exact routers_agree. Qed.
+Print Assumptions C18_agree.
+
+Definition C18_agree_unclaimed_statement : Prop :=
+  forall (O : oracles) (wss : list service) (req : request),
+    detect_web_service O (tokenize (rq_path req)) wss = None ->
+    detect_dispatcher O (rq_path req) wss = None ->
+    route_request O {| t_router := Curly; t_services := wss |} req = RError E404 /\
+    route_request O {| t_router := Jsr311; t_services := wss |} req = RError E404.
+Theorem C18_agree_unclaimed : C18_agree_unclaimed_statement.
+Proof. exact routers_agree_unclaimed. Qed.
+Print Assumptions C18_agree_unclaimed.
+
+(* the premises hold on a concrete table with overlapping routes, for a request that is
+   served (/u/me beats /u/{id}), one that binds a parameter, and one answered 405 *)
+Example C18_agree_example :
+  let w := {| s_root := L "/u"; s_routes := [mk 1 "GET" "/{id}"; mk 2 "GET" "/me"; mk 3 "POST" "/{id}/files"] |} in
+  let w2 := {| s_root := L "/u/x/y"; s_routes := [mk 4 "GET" "/"] |} in
+  forall p, In p ["/u/me"; "/u/42/"; "/u/42/files"]%string ->
+  let req := get p in
+  detect_web_service O0 (tokenize (rq_path req)) [w; w2] = Some w
+  /\ (exists fin, detect_dispatcher O0 (rq_path req) [w; w2] = Some (w, fin))
+  /\ forallb (wf_route w) (s_routes w) = true
+  /\ jsr_all_agree w = true /\ forallb (jsr_names_agree w) (s_routes w) = true
+  /\ c18_service_ok w = true /\ c18_clean (rq_path req) = true /\ c18_chain O0 w req = true.
+Proof.
+  intros w w2 p Hp. cbn in Hp. destruct Hp as [<-|[<-|[<-|[]]]]; vm_compute; repeat split; eexists; reflexivity.
+Qed.
